@@ -625,12 +625,23 @@ fn time_once(s: &str) -> f64 {
 /// Not part of the exhaustive claim: a measurement of time growth, alarm only for clearly
 /// super-linear (>= quadratic-like) growth: T(64 KiB) > 8 * 64 * T(1 KiB) and T(64 KiB) > 0.2 s.
 pub fn growth_measurement(sink: &Sink) -> Value {
-    let pats = ["1.2.3 ", ">=1.2.3 ", "1.2.3 || ", "foo ", " ", "||", "1 - 2 || ", "^1.2.3-a.b.c ", "x", ">", "1.2.3-a.", "~>", "\t", " - ", "* ", "|| ", "v", "1.2.3+b.", "<=1.x ", "0"];
+    let pats = ["1.2.3 ", ">=1.2.3 ", "1.2.3 || ", "foo ", " ", "||", "1 - 2 || ", "^1.2.3-a.b.c ", "x", ">", "1.2.3-a.", "~>", "\t", " - ", "* ", "|| ", "v", "1.2.3+b.", "<=1.x ", "0", "{i}.0.0||", ">={i}.0.0 ", "1.{i}.x || ", "<{i}.0.0-a.{i} || "];
     let mut rows = vec![];
     for p in pats {
         let mk = |total: usize| -> String {
             if p == "1.2.3-a." {
                 format!("1.2.3-{}a", "a.".repeat(total / 2))
+            } else if p.contains("{i}") {
+                // distinct items (a repeated identical item hides quadratic bookkeeping such as
+                // duplicate detection by linear search)
+                let mut t = String::with_capacity(total + 32);
+                let mut i = 0u64;
+                while t.len() < total {
+                    t.push_str(&p.replace("{i}", &i.to_string()));
+                    i += 1;
+                }
+                t.push_str("1.0.0");
+                t
             } else {
                 p.repeat(total / p.len() + 1)
             }
@@ -640,10 +651,22 @@ pub fn growth_measurement(sink: &Sink) -> Value {
         let t1 = (0..5).map(|_| time_once(&small)).fold(f64::MAX, f64::min).max(1e-7);
         let t2 = (0..3).map(|_| time_once(&big)).fold(f64::MAX, f64::min);
         let ratio = t2 / t1;
-        rows.push(json!({"pattern": p, "t_1KiB_s": t1, "t_64KiB_s": t2, "ratio": ratio}));
+        let mut row = json!({"pattern": p, "t_1KiB_s": t1, "t_64KiB_s": t2, "ratio": ratio});
         if ratio > 8.0 * 64.0 && t2 > 0.2 {
             sink.report(&format!("growth:{}", p), format!("pattern={:?}", p), json!({"engine":"B6","kind":"growth","pattern":p}), format!("T(64KiB)/T(1KiB) = {:.0} (T(64KiB) = {:.3}s)", ratio, t2), "<= 512 (roughly linear)".into());
+        } else if p.contains("{i}") {
+            // distinct items: one more size, so that a quadratic cost with a small constant
+            // (a linear search per item) stands out: linear gives a ratio near 256, quadratic 65536
+            let huge = mk(1 << 18);
+            let t3 = (0..2).map(|_| time_once(&huge)).fold(f64::MAX, f64::min);
+            let ratio3 = t3 / t1;
+            row["t_256KiB_s"] = json!(t3);
+            row["ratio_256"] = json!(ratio3);
+            if ratio3 > 8.0 * 256.0 && t3 > 0.5 {
+                sink.report(&format!("growth:{}", p), format!("pattern={:?}", p), json!({"engine":"B6","kind":"growth","pattern":p}), format!("T(256KiB)/T(1KiB) = {:.0} (T(256KiB) = {:.3}s)", ratio3, t3), "<= 2048 (roughly linear)".into());
+            }
         }
+        rows.push(row);
     }
     json!({"labelled_measurement_not_exhaustive": true, "rows": rows})
 }
